@@ -48,6 +48,23 @@ impl JoinState {
         let mut state = JoinState::Joined;
         mem::swap(self, &mut state);
         if let JoinState::Running(handle) = state {
+            // the child may borrow from our frame: never get past this point before it is
+            // done.  A cancelled coroutine cannot block (and does not even re-panic while it
+            // unwinds), so wait with cancel disabled, and again if a cancel woke us up
+            let cancel = if crate::coroutine_impl::is_coroutine() {
+                Some(crate::coroutine_impl::current_cancel_data())
+            } else {
+                None
+            };
+            if let Some(c) = cancel {
+                c.disable_cancel();
+            }
+            while !handle.is_done() {
+                handle.wait();
+            }
+            if let Some(c) = cancel {
+                c.enable_cancel();
+            }
             #[cfg(may_verif)]
             crate::verif::pt("scope.join", 0, 0, 0);
             let res = handle.join();
